@@ -527,6 +527,7 @@ def align_variable_names_with_convention(
     blacklisted_names = (
         tracing.get_imported_names(ast_tree)
         | tracing.get_defined_names(ast_tree)
+        | {handler.name for handler in core.walk(ast_tree, ast.ExceptHandler) if handler.name}
         | constants.BUILTIN_FUNCTIONS
         | constants.PYTHON_KEYWORDS
     )
